@@ -839,27 +839,7 @@ func (ex *Exec) sharedStore(p *Ptr, v Value, atomic bool) {
 	}
 	if t, ok := v.(*Term); ok {
 		we := ex.addEvent(&Event{Kind: "w", Loc: loc, WV: t, Atomic: atomic, Plain: !atomic})
-		if len(c.cur.readVar) > 0 && ex.h.Opts["atomic"] != "" && c.mode == "thread" {
-			// data dependencies (variables of the written term) and control dependencies (variables
-			// of the branch conditions taken so far on this path)
-			dep := map[*Event]bool{}
-			for id := range VarIDs(t) {
-				if re, ok := c.cur.readVar[id]; ok {
-					dep[re] = true
-				}
-			}
-			for _, pc := range ex.sess.pcSince(c.pcMark) {
-				for id := range VarIDs(pc) {
-					if re, ok := c.cur.readVar[id]; ok {
-						dep[re] = true
-					}
-				}
-			}
-			for re := range dep {
-				we.DepReads = append(we.DepReads, re)
-			}
-			sort.Slice(we.DepReads, func(i, j int) bool { return we.DepReads[i].Idx < we.DepReads[j].Idx })
-		}
+		ex.noteDeps(we, t)
 		return
 	}
 	// reference value: publish what it points to, then write its id
@@ -1012,11 +992,15 @@ func (ex *Exec) concAtomic(op string, p *Ptr, a, b *Term) Value {
 		if rv == nil {
 			return cur
 		}
-		ex.addEvent(&Event{Kind: "r", Loc: loc, RV: rv, Atomic: true})
+		ald := ex.addEvent(&Event{Kind: "r", Loc: loc, RV: rv, Atomic: true})
+		if c.cur.readVar == nil {
+			c.cur.readVar = map[int]*Event{}
+		}
+		c.cur.readVar[rv.ID] = ald
 		return rv
 	case "store":
 		markW()
-		ex.addEvent(&Event{Kind: "w", Loc: loc, WV: a, Atomic: true})
+		ex.noteDeps(ex.addEvent(&Event{Kind: "w", Loc: loc, WV: a, Atomic: true}), a)
 		ex.rawStore(p, a)
 		return nil
 	case "add":
@@ -1027,7 +1011,7 @@ func (ex *Exec) concAtomic(op string, p *Ptr, a, b *Term) Value {
 			old = rv
 		}
 		nv := ex.ts.IntBin("add", old, a)
-		ex.addEvent(&Event{Kind: "rmw", Loc: loc, RV: rv, WV: nv, Atomic: true})
+		ex.noteDeps(ex.addEvent(&Event{Kind: "rmw", Loc: loc, RV: rv, WV: nv, Atomic: true}), a)
 		ex.rawStore(p, nv)
 		return nv
 	default: // cas
@@ -1039,7 +1023,7 @@ func (ex *Exec) concAtomic(op string, p *Ptr, a, b *Term) Value {
 		}
 		eq := ex.ts.IntCmp("eq", old, a)
 		nv := ex.ts.Ite(eq, b, old)
-		ex.addEvent(&Event{Kind: "rmw", Loc: loc, RV: rv, WV: nv, Atomic: true})
+		ex.noteDeps(ex.addEvent(&Event{Kind: "rmw", Loc: loc, RV: rv, WV: nv, Atomic: true}), ex.ts.And(ex.ts.IntCmp("eq", a, a), ex.ts.IntCmp("eq", b, b)))
 		ex.rawStore(p, nv)
 		return eq
 	}
@@ -2928,6 +2912,9 @@ func (ex *Exec) lostUpdateQueries(final *ThreadPath) {
 	st := ex.sess.stat("updates-are-atomic", "atomicity")
 	sameSection := func(p *ThreadPath, r, w *Event) bool {
 		for _, h := range r.Held {
+			if strings.HasPrefix(h, "r:") {
+				continue // a shared (read) lock does not exclude the other thread's read-modify-write
+			}
 			held := false
 			for _, h2 := range w.Held {
 				if h2 == h {
@@ -2965,13 +2952,14 @@ func (ex *Exec) lostUpdateQueries(final *ThreadPath) {
 					}
 					logf("    atomicity: thread %d write %s @%s held=%v deps=%v\n", t, w.Loc, w.Pos, w.Held, ds)
 				}
-				if w.Kind != "w" || len(w.DepReads) == 0 {
+				if (w.Kind != "w" && w.Kind != "rmw") || len(w.DepReads) == 0 {
 					continue
 				}
 				for _, r := range w.DepReads {
-					if r.Loc != w.Loc || r.Idx >= w.Idx || sameSection(p, r, w) {
+					if r.Loc != w.Loc || r.Idx >= w.Idx {
 						continue
 					}
+					_ = sameSection // the lock-exclusion constraints of the query decide (a writer that does not take the lock can still interleave)
 					for u := 1; u <= nThreads; u++ {
 						if u == t || c.threads[u].Parent != 0 {
 							continue
@@ -3108,4 +3096,31 @@ func (ex *Exec) lostUpdateCombo(combo []*ThreadPath, r, w, w2 *Event, st *OblSta
 	}
 	cand.Known = matchKnown(ex.sess.known, cand)
 	res.Candidates = append(res.Candidates, cand)
+}
+
+// noteDeps records on a write / read-modify-write event the earlier reads of this path its value
+// depends on: data dependencies (variables of the written operand) and control dependencies
+// (variables of the branch conditions taken so far).  Only with the harness option atomic=...
+func (ex *Exec) noteDeps(we *Event, operand *Term) {
+	c := ex.conc
+	if ex.h.Opts["atomic"] == "" || c.mode != "thread" || len(c.cur.readVar) == 0 {
+		return
+	}
+	dep := map[*Event]bool{}
+	for id := range VarIDs(operand) {
+		if re, ok := c.cur.readVar[id]; ok {
+			dep[re] = true
+		}
+	}
+	for _, pc := range ex.sess.pcSince(c.pcMark) {
+		for id := range VarIDs(pc) {
+			if re, ok := c.cur.readVar[id]; ok {
+				dep[re] = true
+			}
+		}
+	}
+	for re := range dep {
+		we.DepReads = append(we.DepReads, re)
+	}
+	sort.Slice(we.DepReads, func(i, j int) bool { return we.DepReads[i].Idx < we.DepReads[j].Idx })
 }
